@@ -27,4 +27,5 @@ var All = map[string]func(*Ctx){
 	"C11": C11,
 	"C12": C12,
 	"C13": C13,
+	"C14": C14,
 }
